@@ -749,7 +749,18 @@ class Prov:
     def taint_calls(self, local):
         """callee names of all calls whose result may flow into `local`."""
         reach = self.taint_reach(local)
-        return {callee(t) for b, t in self.f.calls() if t["dest"]["local"] in reach}
+        out = {callee(t) for b, t in self.f.calls() if t["dest"]["local"] in reach}
+        # calls that write through a `&mut` argument into a reached local
+        refs = {}
+        for b, i, s in self.f.stmts():
+            if s["k"] == "assign" and s["rv"]["k"] == "ref" and not s["place"]["proj"]:
+                refs.setdefault(s["place"]["local"], set()).add(s["rv"]["place"]["local"])
+        for b, t in self.f.calls():
+            for a in t["args"]:
+                l = op_local(a)
+                if l is not None and self.f.local_ty(l).startswith("&mut") and (refs.get(l, set()) & reach):
+                    out.add(callee(t))
+        return out
 
     def roots(self, local):
         if local in self._roots:
@@ -1151,6 +1162,13 @@ def trace_access(f, o, depth=16):
             o = rv["op"]
         elif rv["k"] == "ref":
             o = {"k": "copy", "place": rv["place"]}
+        elif rv["k"] == "cast" and op_place(rv["op"]) is not None:
+            # raw-pointer plumbing of a Box deref: `_b.0.pointer as *const T` -> treat as `*_b`
+            pl = op_place(rv["op"])
+            if pl["proj"] and "std::boxed::Box<" in f.local_ty(pl["local"]):
+                o = {"k": "copy", "place": {"local": pl["local"], "proj": []}}
+            else:
+                o = rv["op"]
         else:
             break
     p = op_place(o)
